@@ -76,11 +76,27 @@ Proof. intros st h Hh. unfold process, process_request. rewrite Hh. simpl. destr
 (* "A batch item that reports failure leaves the stored objects exactly as they were":
    neither the committed store, nor the working state of the shared session, nor the
    placeholder change (so that no later commit in the same batch can publish anything
-   the failed item did). *)
+   the failed item did).  `clean s`: the session holds no unpublished change when the
+   item starts - an invariant of the batch (session_never_dirty). *)
 Theorem fail_no_trace : forall h s p it r s' p',
-    handle h s p it = (Fail r, s', p') -> s' = s /\ p' = p.
+    clean s -> handle h s p it = (Fail r, s', p') -> s' = s /\ p' = p.
 Proof. exact handle_fail_frame. Qed.
 Print Assumptions fail_no_trace.
+
+(* Two independent reasons.  (1) Since 52cb625 the batch loop rolls the session back after a failed
+   item: the frame holds for ANY handler result, whatever it did to the working state before raising. *)
+Theorem rollback_makes_fail_no_trace_structural : forall (r : hres) s pl reason s' p',
+    clean s -> lift r s pl = (Fail reason, s', p') -> s' = s /\ p' = pl.
+Proof. exact lift_fail_frame. Qed.
+Print Assumptions rollback_makes_fail_no_trace_structural.
+
+(* (2) The handlers never needed it: in each of them every `raise` precedes every mutation, so even
+   without the rollback (the loop before 52cb625) a failing item hands the session back as it got it -
+   from any state, clean or not. *)
+Theorem handlers_raise_before_they_mutate_thm : forall h s p it r s' p',
+    lift_without_rollback (dispatch h (working s) p (it_body it)) s p = (Fail r, s', p') -> s' = s /\ p' = p.
+Proof. exact handlers_raise_before_they_mutate. Qed.
+Print Assumptions handlers_raise_before_they_mutate_thm.
 
 (* the session carries no unpublished change from one item to the next *)
 Theorem session_never_dirty : forall st h its rs st',
@@ -174,15 +190,20 @@ Example placeholder_example :
      map r_ok rs = [true; false; true] /\ option_map o_state (lookup 2 st') = Some S_ACTIVE.
 Proof. eexists. eexists. vm_compute. repeat split. Qed.
 
-(* What the property is about, expressed in the model: were a guard placed after the
-   mutation (no rollback in _process_batch), a later commit would publish the failed
-   item's change.  The faithful handlers do not do this (fail_no_trace). *)
+(* What the property is about, expressed in the model: were a guard placed after the mutation and
+   the batch loop without rollback (as it was before 52cb625), a later commit would publish the
+   failed item's change; with the rollback it does not. *)
 Theorem late_guard_would_leave_trace :
-  exists rs st', process_late demo_store demo_header demo_items = (inr rs, st') /\
+  exists rs st', process_late_without_rollback demo_store demo_header demo_items = (inr rs, st') /\
                  map r_ok rs = [false; true] /\
                  option_map o_state (lookup 1 st') = Some S_ACTIVE /\
                  option_map o_state (lookup 1 demo_store) = Some S_DEACT.
 Proof. exact late_guard_leaves_trace. Qed.
+
+Theorem late_guard_is_rolled_back :
+  exists rs st', process_late demo_store demo_header demo_items = (inr rs, st') /\
+                 map r_ok rs = [false; true] /\ option_map o_state (lookup 1 st') = Some S_DEACT.
+Proof. exact late_guard_rolled_back. Qed.
 Print Assumptions late_guard_would_leave_trace.
 
 (* ---- the session layer (kmip/services/server/session.py): what the client is actually sent ----
@@ -230,8 +251,8 @@ Proof. eexists. eexists. vm_compute. repeat split. discriminate. Qed.
    Batch/OrderCheck.v allowed_late_raises (a guard correlation the analysis does not follow;
    discharged dynamically by K);
    no handler ends with an uncommitted change; the placeholder is only set in a clean state. *)
-Theorem request_runs_under_the_engine_lock : process_request_locked /\ placeholder_reset_comes_first.
-Proof. exact (conj process_request_is_locked placeholder_reset_first). Qed.
+Theorem request_runs_under_the_engine_lock : process_request_locked /\ placeholder_reset_comes_first /\ failed_items_are_rolled_back.
+Proof. exact (conj process_request_is_locked (conj placeholder_reset_first batch_rolls_back)). Qed.
 Print Assumptions request_runs_under_the_engine_lock.
 
 (* the response header announces exactly the results the response carries (model side of the header check of K) *)
